@@ -264,6 +264,17 @@ impl Depend {
         Ok(Depend { pattern, pkgpath })
     }
 //@ end
+//@ extract src/depend.rs : impl FromStr for Depend fn from_str
+    fn from_str(s: &str) -> (r: Result<Self, DependError>)
+        ensures
+            r is Ok <==> (split_colon(s@).len() == 2 && pvalid(split_colon(s@)[0]) && pkgpath_ok(comps(encode_utf8(split_colon(s@)[1])))),
+            r is Ok ==> r->Ok_0.pat_v().wf() && r->Ok_0.pat_v().pat() == split_colon(s@)[0]
+                && comps(r->Ok_0.path_v().short_b()) == seq![comps(encode_utf8(split_colon(s@)[1]))[comps(encode_utf8(split_colon(s@)[1])).len() - 2], comps(encode_utf8(split_colon(s@)[1]))[comps(encode_utf8(split_colon(s@)[1])).len() - 1]],
+            r is Err && split_colon(s@).len() != 2 ==> r->Err_0 is Invalid,
+    {
+        Depend::new(s)
+    }
+//@ end
 //@ extract src/depend.rs : impl Depend fn pattern
     pub fn pattern(&self) -> (r: &Pattern)
         ensures *r == self.pat_v()
